@@ -17,6 +17,36 @@ CHECKS = {
    "Every lookup of the real route table is compared with an independent reference (exact > any matching wildcard > default > none) and all repeats on one table must agree; exhaustive within the stated table/host universe, random beyond.",
    "Where several wildcard entries match, any of them is accepted (the property fixes no order among them) but the answer must be stable.",
    "5 C18"),
+ "C05": ("inpkg", "exploration",
+   "epoch/window rotation monitor over exhaustively enumerated add/remove/dispatch sequences; porcupine linearizability check of recorded concurrent histories against a membership model; race detector",
+   "Drives the real round-robin structure with recording backend doubles: every sequence up to length 5 (quick) / 7 (thorough) over 4 addresses plus random long ones under a strict-rotation monitor, and concurrent histories (dispatches parked inside Send while members are removed) checked by porcupine.",
+   "Strict evenness is demanded inside an epoch only; a dispatch overlapping a membership change must reach a backend that was a member at some point of its interval (the property demands no more).",
+   "5 C05"),
+ "C10": ("inpkg", "exploration",
+   "differential monitor (clean vs. recycled receive buffer) through the real UDP parse loop with an 'image of this datagram alone' oracle; porcupine ownership check of the real buffer pool; race detector",
+   "Pushes generated datagrams (exact / over- / under-declared Content-Length, cut at random and at every offset) through the real parse goroutine twice - in a zeroed buffer and in a buffer holding a longer earlier datagram - and requires identical results equal to the image of the datagram alone; concurrent Alloc/Free histories of the pool are checked for single ownership.",
+   "The in-package part hands (buffer, length) to the parse loop exactly as the receive goroutine does; the socket read itself is covered by the wire engine when present.",
+   "5 C10"),
+ "C11": ("inpkg", "exploration",
+   "reference-model monitor: generator's abstract message sequence vs. what the real per-connection receive loop delivers, over scripted segmentations (exhaustive single/double cuts of short streams, random multi-cuts)",
+   "Feeds the real TCP receive loop through a scripted connection that returns exactly the chosen segments and compares count, order, start lines, header names/values and bodies with the abstract sequence.",
+   "Streams stay inside the quantifier (Content-Length present, no folded lines).",
+   "5 C11"),
+ "C15": ("inpkg", "exploration",
+   "online monitor with bracketed monotonic timestamps over random pin/lookup/terminate/sleep histories on the real pin table (20-80 ms timeouts), plus purge-obligation monitor on table contents",
+   "Verdicts only where the measured brackets prove a lookup to lie inside (must be pinned) or outside (must be gone) the lifetime; purge bound derived from the property: an entry expired more than one timeout before an add must be gone after that add.",
+   "Table-level; dissolution by BYE / NOTIFY is exercised by the C04/C15 wire histories when present. 2 ms slack on the purge bound.",
+   "5 C15"),
+ "C19": ("inpkg", "fault_enumeration",
+   "resolution outcomes injected at the resolver's notification entry point, enumerated exhaustively (length <= 3 quick / 5 thorough) and randomly; membership model monitor on locked accessors, dispatch probes on real loopback sockets behind the real proxy loop, behavioural attribution probes",
+   "Every outcome sequence is applied with quiescence between steps; rotation membership, the resolver's own list, the targets of k dispatches and the attribution of responses (pin / no pin) must match the model (<= 3 failures keep the set, the 4th empties it).",
+   "The periodic DNS poll is replaced by direct calls of the function it calls; a successful resolution with no address is expressible only this way.",
+   "5 C19"),
+ "C20": ("inpkg", "fault_enumeration",
+   "exhaustive enumeration of connection-fault patterns with scripted net.Conn doubles and real loopback listeners; byte-exact sink monitor (exactly-once, whole message, no touch of dead path, no extra connection)",
+   "All {cached connection: absent/healthy/failing on write k, clean or partial} x {reconnectable path: absent/fresh/stale-once/refusing/accept-then-reset} x 1-3 messages x sizes for the fail-over client transport and the TCP backend; each verdict is confirmed by one re-execution.",
+   "accept-then-reset is a stated don't-care for success/failure (only duplication, hangs and panics are judged).",
+   "5 C20"),
  "C14": ("inpkg", "exploration",
    "reference-model monitor over generated executions (generator's abstract value vs. real decoders/encoders, race-enabled test binary)",
    "Runs the repository's real decoders and encoders on grammar-generated values and compares every accessor and the re-encoded text with the generator's abstract value; held on the generated cases only.",
